@@ -13,7 +13,7 @@ RULE = ("byte strings as messages and as files: random bytes; well-formed messag
         "ASCII/EBCDIC codecs, both bitmap forms, PDS + ICC) with every byte of every length prefix, PDS sub-length / tag, "
         "bitmap byte, MTI, TLV length and every byte of `decimal` typed elements substituted from the class alphabet {digits, sign, space, underscore, NBSP, NUL, "
         "high bytes}; truncation at every offset, insert / delete / bit-flip multi-point mutations; IPM/VBS files with "
-        "mutated records and lengths, blocked and unblocked; command-line tools on malformed files. Every case under a "
+        "mutated records and lengths, blocked and unblocked; command-line tools on malformed files (sampled mutations plus every MTI / bitmap byte of the first two records substituted). Every case under a "
         "2 s CPU-time watchdog. Non-trivial = the mutated input differs from a valid message; distinct = distinct input bytes")
 TRUSTED = c01.TRUSTED + ["a pure-Python hang is interrupted by the watchdog (2 s of CPU time of the worker process, wall-clock backstop 60 s) and reported as `diverge`"]
 ASSUMPTIONS = c01.ASSUMPTIONS + ["`decimal` typed elements of at most 15 characters in the correspondence (CPython refuses "
@@ -383,4 +383,16 @@ def explore(run, tier):
             if (len(v) % 7 == 0 or thorough) and codec in ('latin_1', 'cp500'):
                 cases.append({'k': 'cli', 'cfg': 'pkg', 'codec': codec, 'b': blocked, 'data': v.hex(),
                               'tool': 'mci_ipm_to_csv' if i % 2 else 'mideu'})
+        # the tools' own error path (they inspect the file with ipm_info before printing the diagnostic): a non-digit
+        # in each MTI position and a changed byte in each bitmap position of the FIRST record, and of the second
+        if i < (6 if not thorough else 60) and codec in ('latin_1', 'cp500'):
+            second = 4 + len(recs[0]) if len(recs) > 1 and not blocked else None
+            for base in (0, second):
+                if base is None:
+                    continue
+                for o in range(base + 4, base + 4 + 20):
+                    for byte in ('X'.encode(codec)[0], 0x00, 0xff):
+                        v = good[:o] + bytes([byte]) + good[o + 1:]
+                        for tool in ('mci_ipm_to_csv', 'mideu'):
+                            cases.append({'k': 'cli', 'cfg': 'pkg', 'codec': codec, 'b': blocked, 'data': v.hex(), 'tool': tool})
     run.correspond(__name__, cases, use_model=run.use_model, chunk=200)
